@@ -16,12 +16,12 @@ RULE = ('each generated deck (flat / universes / lattices / LIKE cells, with TR 
         'TR and IMP cards. The written file must be byte-identical to that of the canonical text apart from the '
         'header comment. Also: the 128 upstream decks of the repository are converted (corpus, must not raise). '
         'Streams cards: get_cards/Card.content vs the Lean lexer model. Distinct = (deck, style).')
-NOT_PROVED = ['letter case of keywords and mnemonics (lower-casing is done per parser) and the regular expressions that split a '
-              'surface / data card into its fields: decided by the restyling differential only; the split of a CELL card '
-              '(cellcard.split) is modelled character by character, tied by the cellsplit stream and proved to return '
-              'number / material / density / geometry / options as written, LIKE and BUT in any letter case '
-              '(cell_card_split_material, cell_card_split_void, cell_card_split_like); its hypothesis OptsAt is not '
-              'derived from a grammar of geometry expressions, and float() spellings inf / nan / 1_0 are outside the model',
+NOT_PROVED = ['letter case of surface mnemonics and data-card names (one .lower() per reader): decided by the restyling '
+              'differential only; the splits of cell / surface / data cards and the keyword tokeniser are modelled '
+              'character by character, tied by the cellsplit / cardsplit / opttokens streams and proved to return the fields '
+              'as written (cell_card_split_*, surface_card_split*, data_card_split, keyword_case_immaterial); the '
+              'hypothesis OptsAt of the cell-card theorems is not derived from a grammar of geometry expressions, and '
+              'float() spellings inf / nan / 1_0 are outside the model',
               'the block splitter is modelled at the level of lines (what \\n separates); \\r and a blank first line are outside the model']
 ASSUMPTIONS = ['densities and material fractions are only respelled within their spelling class (C09): the strings are '
                'copied into composition names / the COMPOSITION block']
